@@ -858,6 +858,76 @@ pub fn case_strategy(o: GenOpts, sets: &'static [&'static str]) -> impl Strategy
         })
 }
 
+/// Several completions on one Cli: what Tab does depends on the line and the cursor in front of it, not on what was
+/// completed, typed, erased, submitted or recalled before. Rounds: erase the line and type a word (then move left) and press
+/// Tab; or recall with Up and press Tab; or submit.
+pub fn tab_session_strategy(with_api: bool) -> impl Strategy<Value = Case> {
+    let words = vec![
+        "g", "ge", "get", "get-", "get-l", "get-a", "e", "ex", "exi", "exit", "s", "se", "set", "set ", "n", "ne", "net", "h", "he", "hel", "help", "э", "эх", "go", "go-", "hell", "hello", "с", "ст", "сто", "ста", "a", "at", "x", "sec",
+    ];
+    // with_api: what the application or the user does right after a completion (output, prompt change, an edit)
+    let after = prop_oneof![
+        6 => Just(None),
+        2 => out_calls_strategy(false).prop_map(|c| Some(Op::Write(c))),
+        1 => (0usize..5).prop_map(|p| Some(Op::SetPrompt(p))),
+        1 => Just(Some(Op::Backspace)),
+        1 => Just(Some(Op::Char('x'))),
+        1 => Just(Some(Op::Left)),
+    ];
+    let round = (0u8..10, any::<u16>(), 0usize..2, 0usize..3, 0usize..4, after);
+    (
+        prop_oneof![Just("enum"), Just("group"), Just("group")],
+        prop_oneof![Just(4usize), Just(5), Just(6), Just(7), Just(8), Just(10), Just(12), Just(16), Just(32)],
+        prop_oneof![Just(0usize), Just(16), Just(48)],
+        0usize..5,
+        proptest::collection::vec(round, 1..6),
+    )
+        .prop_map(move |(set, cap, hist, prompt, rounds)| {
+            let mut ops: Vec<Op> = Vec::new();
+                        for (i, (kind, w, lead, trail, lefts, after)) in rounds.into_iter().enumerate() {
+                match kind {
+                    0 if i > 0 => {
+                        ops.push(Op::Up);
+                        ops.push(Op::Tab);
+                    }
+                    1 if i > 0 => ops.push(Op::Enter),
+                    _ => {
+                        if i > 0 {
+                            // erase whatever the line holds
+                            for _ in 0..12 {
+                                ops.push(Op::Right);
+                            }
+                            for _ in 0..24 {
+                                ops.push(Op::Backspace);
+                            }
+                        }
+                        ops.push(Op::Text(format!("{}{}{}", " ".repeat(lead), pick(&words, w), " ".repeat(trail))));
+                        for _ in 0..lefts {
+                            ops.push(Op::Left);
+                        }
+                        ops.push(Op::Tab);
+                        if with_api {
+                            if let Some(a) = after {
+                                ops.push(a);
+                            }
+                        }
+                    }
+                }
+            }
+            Case {
+                cfg: Config {
+                    cmd_buf: cap,
+                    hist_buf: hist,
+                    prompt,
+                    set: set.to_string(),
+                    ..Default::default()
+                },
+                ops,
+            }
+        })
+}
+
+
 // ------------------------------------------------------------------------------------------------
 // glue used by the per-property checks
 
@@ -872,7 +942,14 @@ pub fn run_lockstep_shard(
     sets: &'static [&'static str],
     flags: Flags,
 ) {
-    ctx.run_prop(sub, total, case_strategy(opts, sets), case_json, |c| match run_case(c, flags) {
+    run_lockstep_shard_with(ctx, sub, prop, total, case_strategy(opts, sets), flags);
+    // sessions built around completions (word, blanks, cursor moved back, Tab) followed by output, a prompt change or an
+    // edit: the states a completion leaves behind are rare in the general sessions
+    run_lockstep_shard_with(ctx, sub, prop, total / 6, tab_session_strategy(true), flags);
+}
+
+pub fn run_lockstep_shard_with<S: Strategy<Value = Case>>(ctx: &ShardCtx, sub: &'static str, prop: &'static str, total: u64, strat: S, flags: Flags) {
+    ctx.run_prop(sub, total, strat, case_json, |c| match run_case(c, flags) {
         Ok(stats) => {
             if let Some(i) = stats.inconclusive {
                 ctx.inconclusive(i);
